@@ -580,7 +580,9 @@ class EventGenerator:
         )
         qname = qname or meta.qname
         nillable = nillable or meta.nillable
-        namespace, _tag = namespaces.split_qname(qname)
+        # The classes of the child values inherit the namespace of this class,
+        # like ElementNode does, not the one of the element name
+        namespace = meta.namespace
 
         yield XmlWriterEvent.START, qname
 
